@@ -972,7 +972,8 @@ class BADS:
 
         # Only one function evaluation
         if self.options["max_fun_evals"] == 1:
-            is_finished = True
+            self.display_format = self._setup_logging_display_format()
+            self.optim_state["eff_starting_points"] = self.function_logger.Xn + 1
             return
 
         # If dealing with a noisy function, use a large initial mesh
